@@ -342,6 +342,14 @@ func checkStrLen(t ev.TB, test string, pl payload) {
 	if want.Status == "compile-error" || res.Status == "compile-error" {
 		wantLimit := want.Status == "compile-error" && want.CErr.Class == "string-limit"
 		gotLimit := res.Status == "compile-error" && strings.Contains(res.ErrText, "exceeding string size limit")
+		if want.Status == "compile-error" && res.Status == "compile-error" && wantLimit != gotLimit {
+			// the program has two things wrong (an over-long literal and, say,
+			// an unresolved name from the ill-scoped injection): which one is
+			// reported first depends on the order the compiler and the
+			// reference's resolver walk the tree - not this check's subject
+			ev.Discard("two different compile errors in one program")
+			return
+		}
 		if wantLimit && !gotLimit {
 			failf("max=%d: the source has a string literal (or map-literal key) longer than the maximum, expected the string-limit compile error, got status %s (%s)\n--- source ---\n%s", maxLen, res.Status, oneLine(res.ErrText), clip(src))
 			return
